@@ -240,7 +240,7 @@ def gen_cases(rng, n):
         elif r < 0.91:
             a = rand_attrs(rng)
             op = rng.choice(['has', 'get', 'idx', 'slice', 'substr', 'totuple', 'orsub', 'orget'])
-            c.update(op='attrs_' + op, a=a)
+            c.update(op='attrs_' + op, a=a, qn=rng.random() < 0.5)   # qn: the names are QName objects, as in a parsed stream
             if op in ('has', 'get', 'substr'):
                 c['n'] = rng.choice(ATTR_NAMES)
             elif op == 'idx':
@@ -504,7 +504,7 @@ def real_for(tag, c, I):
             return o[2] if o[0] == 'ok' else Atom('err')
         return [Atom('ok'), o[2]] if o[0] == 'ok' else [Atom('err'), Atom(o[1])]
     if tag == 'attrs':
-        A = core.Attrs([(k, v) for k, v in c['a']])
+        A = core.Attrs([(core.QName(k) if c.get('qn') else k, v) for k, v in c['a']])
         if op == 'attrs_has':
             return B(c['n'] in A)
         if op == 'attrs_get':
@@ -702,7 +702,7 @@ def oracle(c, I=None):
     elif op.startswith('attrs_'):
         import genshi.core as core
         pairs = [(k, v) for k, v in c['a']]
-        A = core.Attrs(pairs)
+        A = core.Attrs([(core.QName(k) if c.get('qn') else k, v) for k, v in pairs])
         if op == 'attrs_has':
             if (c['n'] in A) != (c['n'] in [k for k, _ in pairs]):
                 bad('name in Attrs', c['n'] in [k for k, _ in pairs], c['n'] in A)
